@@ -368,7 +368,8 @@ class Expectation:
                     if _RANK[status[s]] < _RANK[ANY]:
                         status[s], sreason[s] = ANY, ("only_cover", "enclosing-scope", ("scope", s))
                 elif _RANK[status[s]] < _RANK[EXC]:
-                    status[s], sreason[s] = EXC, ("only_cover", "unlisted-" + s.construct(), ("scope", s))
+                    listed = "+".join(sorted({x.construct() for x in resolved_only}))
+                    status[s], sreason[s] = EXC, ("only_cover", f"unlisted-{s.construct()}[{listed}]", ("scope", s))
         self.scope_status, self.scope_reason = status, sreason
 
         # lines inherit from the scope that runs them
@@ -416,7 +417,8 @@ class Observation:
     __slots__ = ("lines", "predicates", "code_objects", "branchless", "error", "error_text")
 
     def __init__(self):
-        self.lines = set()            # (co_name, co_firstlineno, line)
+        self.lines = {}               # line number -> co_name of the registering code object (a line is
+        #                               registered once per file; goals without a line number are C02's subject)
         self.predicates = []          # (co_name, co_firstlineno, line)
         self.code_objects = set()     # (co_name, co_firstlineno)
         self.branchless = set()
@@ -424,7 +426,7 @@ class Observation:
         self.error_text = ""
 
     def summary(self):
-        return {"lines": sorted({ln for _n, _f, ln in self.lines}),
+        return {"lines": sorted(self.lines),
                 "predicates": sorted(ln for _n, _f, ln in self.predicates if isinstance(ln, int)),
                 "code_objects": sorted(f"{n}@{f}" for n, f in self.code_objects), "error": self.error}
 
@@ -438,7 +440,8 @@ def read_registries(props) -> Observation:
     for cid in props.branch_less_code_objects:
         obs.branchless.add(key[cid])
     for lm in props.existing_lines.values():
-        obs.lines.add((*key.get(lm.code_object_id, ("?", -1)), lm.line_number))
+        if isinstance(lm.line_number, int):
+            obs.lines[lm.line_number] = key.get(lm.code_object_id, ("?", -1))[0]
     for pm in props.existing_predicates.values():
         obs.predicates.append((*key.get(pm.code_object_id, ("?", -1)), pm.line_no))
     return obs
@@ -500,7 +503,7 @@ def judge(exp: Expectation, base: Observation, obs: Observation):
         yield v(f"raises:{obs.error}", 0, None, None, f"instrumentation raised {obs.error}: {obs.error_text}")
         return
     # soundness: nothing registered inside excluded code
-    for (cn, cf, ln) in sorted(obs.lines):
+    for ln, cn in sorted(obs.lines.items()):
         if 1 <= ln <= m.n and exp.line[ln] == EXC:
             yield v("goal-inside-excluded:line", ln, exp.reason[ln], m.owner[ln],
                     f"line {ln} ({cn}) is a line goal inside excluded code")
@@ -517,13 +520,14 @@ def judge(exp: Expectation, base: Observation, obs: Observation):
             yield v("goal-inside-excluded:codeobject", cf, why, sc,
                     f"branch-less code object {cn}@{cf} is a goal although its scope is excluded")
     # nothing may appear that the exclusion-free run does not have
-    for item in sorted(obs.lines - base.lines):
-        yield v("goal-not-in-baseline:line", item[2], None, None, f"line goal {item} does not exist without exclusions")
+    for ln in sorted(set(obs.lines) - set(base.lines)):
+        yield v("goal-not-in-baseline:line", ln, None, None, f"line goal {ln} does not exist without exclusions")
     for item in sorted(obs.code_objects - base.code_objects):
         yield v("goal-not-in-baseline:codeobject", item[1], None, None,
                 f"code object {item} does not exist without exclusions")
     # completeness for lines
-    for (cn, cf, ln) in sorted(base.lines - obs.lines):
+    for ln in sorted(set(base.lines) - set(obs.lines)):
+        cn = base.lines[ln]
         if 1 <= ln <= m.n and exp.line[ln] == INC:
             yield v("line-outside-not-goal", ln, None, m.owner[ln],
                     f"executable line {ln} ({cn}) lies outside excluded code but is no line goal")
